@@ -105,6 +105,30 @@ def run(facts, R):
                             "(the empty token of `/items/`) may address an element" % render(v)[:120], t.get("span"), "index = token.parse::<usize>()?")
     R.floor("index-token", n_idx, 3, "array accesses by index in the pointer walkers (one per walker at least)")
 
+    # ---------------- a root write merges: set_pointer's own empty-pointer arm (`*root = value`, a wholesale replacement that drops
+    # every unrelated top-level key and accepts a scalar root) is never reached by a write: every caller hands it a pointer it has
+    # seen to be non-empty, the root case being handled by the merge path before.  Closed over every caller, whenever added
+    n_sp = 0
+    for b_, i_, t_ in facts.calls_to("registry::set_pointer"):
+        if len(t_["args"]) < 2:
+            continue
+        n_sp += 1
+        s_ = Sym(b_)
+
+        def _sd(e):
+            while e[0] == "call" and len(e[2]) == 1 and e[1].rsplit("::", 1)[-1] in ("deref", "as_ref", "borrow", "as_slice"):
+                e = e[2][0]
+            return e
+        seg = _sd(s_.op(t_["args"][1]))
+        fs_ = facts_at(b_, s_, facts, i_)
+        nonempty = any(is_call(f_["expr"], "is_empty") and f_["val"] is False and f_["expr"][2] and _sd(f_["expr"][2][0]) == seg for f_ in fs_) or \
+            any(is_call(f_["expr"], "split_last", "split_first", "last", "first") and f_["val"] == "Some" and f_["expr"][2] and _sd(f_["expr"][2][0]) == seg for f_ in fs_)
+        R.check(nonempty, "write-is-all-or-nothing", b_.path, "set_pointer is never handed the root pointer",
+                "%s calls set_pointer with %s without having seen it non-empty: an empty pointer reaches set_pointer's `*root = value` arm, which replaces the whole "
+                "document (unrelated top-level keys are dropped, a scalar root is accepted) instead of merging the object's keys; guards: %s"
+                % (b_.path.rsplit("::", 1)[-1], render(seg)[:80], texts(fs_)[-3:]), t_.get("span"), "dominated by !segments.is_empty()")
+    R.floor("write-is-all-or-nothing", n_sp, 1, "callers of set_pointer")
+
     # ---------------- callable-once -----------------------------------------------------------------------------
     calls = [(b, i, t) for b in facts.bodies.values() for i, t in b.calls() if t["callee"]["decl"] == "registry::RegistryCallable::call" and b.path.startswith("registry::Registry::")]
     R.check(len(calls) == 1 and calls[0][0] is dw, "callable-once", "<crate>", "one invocation site", "RegistryCallable::call sites: %s" % [b.path for b, _, _ in calls])
